@@ -447,6 +447,13 @@ class VBSClusteringManager:
         with self._lock:
             if self._state is not VBSState.VRU_ACTIVE_STANDALONE:
                 return False
+            if (
+                self._join_substate is not _JoinSubstate.NONE
+                or self._leave_substate is not _LeaveSubstate.NONE
+            ):
+                # A join procedure or a leave notification is in progress; as
+                # leader the device would stop announcing it.
+                return False
 
             # Count nearby VRUs within MAX_CLUSTER_DISTANCE
             now = self._time_fn()
